@@ -10,12 +10,10 @@ import (
 	"encoding/binary"
 	"flag"
 	"fmt"
-	"runtime"
 	"strconv"
 	"strings"
 	"unsafe"
 
-	"github.com/bytedance/gopkg/lang/mcache"
 	"github.com/cloudwego/gopkg/bufiox"
 	"github.com/cloudwego/gopkg/protocol/thrift"
 	"verifharness/lib"
@@ -65,63 +63,6 @@ func ptrOf(b []byte) uintptr   { return uintptr((*hdr)(unsafe.Pointer(&b)).p) }
 func uptrOf(b []byte) unsafe.Pointer { return (*hdr)(unsafe.Pointer(&b)).p }
 func sptrOf(s string) uintptr  { return *(*uintptr)(unsafe.Pointer(&s)) }
 
-// loc: which object a slice lies in (never an address): M<k>+off, C+off, G, -
-func loc(b []byte, caller []byte) string {
-	if len(b) == 0 {
-		return "-"
-	}
-	if id, off := mcache.VerifWhich(uptrOf(b)); id > 0 {
-		return fmt.Sprintf("M%d+%d", id, off)
-	}
-	if cap(caller) > 0 {
-		p, c := ptrOf(b), ptrOf(caller)
-		if p >= c && p < c+uintptr(cap(caller)) {
-			return fmt.Sprintf("C+%d", p-c)
-		}
-	}
-	return "G"
-}
-
-// events since the last call, as " | M1:4096 F1"
-func events() string {
-	evs := mcache.VerifEvents()
-	if len(evs) == 0 {
-		return ""
-	}
-	var sb strings.Builder
-	sb.WriteString(" |")
-	for _, e := range evs {
-		switch {
-		case e.Kind == 'M':
-			fmt.Fprintf(&sb, " M%d:%d", e.ID, e.Cap)
-		case e.ID == 0:
-			fmt.Fprintf(&sb, " F?:%d", e.Cap)
-		case e.CapOK:
-			fmt.Fprintf(&sb, " F%d", e.ID)
-		default:
-			fmt.Fprintf(&sb, " F%d:%d", e.ID, e.Cap)
-		}
-	}
-	return sb.String()
-}
-
-// env: the co-tenant between two operations.  With the instrumented pool a recycled buffer is
-// poisoned at Free already; here the Go heap is churned and collected, so that anything the library
-// dropped really is gone.
-var churn [][]byte
-
-func env(r int) {
-	churn = churn[:0]
-	for i := 0; i < 8; i++ {
-		b := make([]byte, 1<<(uint(i+r)%14))
-		for k := range b {
-			b[k] = 0xDE
-		}
-		churn = append(churn, b)
-	}
-	runtime.GC()
-}
-
 type liveSlice struct {
 	b    []byte
 	want []byte
@@ -165,7 +106,7 @@ func mkReader(kind string, stream []byte, script string) (r bufiox.Reader, calle
 }
 
 func runRd(fam, kind, streamTok, script, ops string) string {
-	mcache.VerifReset()
+	instrReset()
 	stream := parseStream(streamTok)
 	r, caller := mkReader(kind, stream, script)
 	var callerCopy []byte
@@ -179,7 +120,15 @@ func runRd(fam, kind, streamTok, script, ops string) string {
 	var live []liveSlice
 	nlive := func() int { return len(live) }
 	var out []string
-	hand := func(b []byte, err error, isErrNil bool) string {
+	pos := 0 // bytes of the stream consumed so far
+	// what a zero-copy slice shows must be the stream itself (a recycled buffer would show poison)
+	corrupt := func(b []byte, at int) string {
+		if at+len(b) > len(stream) || !bytes.Equal(b, stream[at:at+len(b)]) {
+			return " CORRUPT"
+		}
+		return ""
+	}
+	hand := func(b []byte, err error, isErrNil bool, consume bool) string {
 		if err != nil {
 			return "err " + lib.ErrStr(err)
 		}
@@ -187,7 +136,11 @@ func runRd(fam, kind, streamTok, script, ops string) string {
 			return "err nil"
 		}
 		live = append(live, liveSlice{b: b, want: append([]byte(nil), b...)})
-		return fmt.Sprintf("ok %s %s", lc(b), loc(b, caller))
+		c := corrupt(b, pos)
+		if consume {
+			pos += len(b)
+		}
+		return fmt.Sprintf("ok %s %s", lc(b), loc(b, caller)) + c
 	}
 	dead := false
 	for i, op := range splitOps(ops) {
@@ -204,16 +157,19 @@ func runRd(fam, kind, streamTok, script, ops string) string {
 					b, err = r.Peek(n)
 				}
 				// (nil, nil) for n > 0 is the model's `fail none`
-				return hand(b, err, err == nil && len(b) != n)
+				return hand(b, err, err == nil && len(b) != n, op[0] == 'n')
 			case 's':
 				if err := r.Skip(atoi(op[1:])); err != nil {
 					return "err " + lib.ErrStr(err)
 				}
+				pos += atoi(op[1:])
 				return "ok"
 			case 'b':
 				bs := make([]byte, atoi(op[1:]))
 				m, err := r.ReadBinary(bs)
-				return fmt.Sprintf("rb %s %s", lc(bs[:m]), lib.ErrStr(err))
+				c := corrupt(bs[:m], pos)
+				pos += m
+				return fmt.Sprintf("rb %s %s", lc(bs[:m]), lib.ErrStr(err)) + c
 			case 'l':
 				return fmt.Sprintf("len %d", r.ReadLen())
 			case 't':
@@ -222,7 +178,7 @@ func runRd(fam, kind, streamTok, script, ops string) string {
 					quiet, dead = true, true
 					return "err " + lib.ErrStr(err)
 				}
-				return hand(b, nil, false)
+				return hand(b, nil, false, true)
 			case 'r':
 				// every slice handed out since the last Release must still hold what was returned
 				s := fmt.Sprintf("rel %d", nlive()) + checkLive(live)
@@ -238,9 +194,10 @@ func runRd(fam, kind, streamTok, script, ops string) string {
 		if strings.HasPrefix(res, "PANIC") {
 			quiet, dead = true, true
 		}
+		envBetween(i)
 		res += checkLive(live)
 		if quiet {
-			mcache.VerifEvents()
+			instrDrain()
 		} else {
 			res += events()
 		}
@@ -268,12 +225,13 @@ func runRd(fam, kind, streamTok, script, ops string) string {
 // ---------------------------------------------------------------- rsd: ReaderSkipDecoder
 
 func runRsd(streamTok, script, ops string) string {
-	mcache.VerifReset()
+	instrReset()
 	stream := parseStream(streamTok)
 	src := lib.NewSource(stream, lib.ParseScript(script))
 	// never Released: a pooled decoder would carry its buffer into the next history
 	d := thrift.NewReaderSkipDecoder(src)
 	var out []string
+	pos := 0
 	for i, op := range splitOps(ops) {
 		quiet, dead := false, false
 		res := lib.Guard(func() string {
@@ -284,7 +242,13 @@ func runRsd(streamTok, script, ops string) string {
 					quiet, dead = true, true
 					return "err " + lib.ErrStr(err)
 				}
-				return fmt.Sprintf("ok %s %s", lc(b), loc(b, nil))
+				// the value must be the stream itself: a copy taken from an already recycled buffer is poison
+				c := ""
+				if pos+len(b) > len(stream) || !bytes.Equal(b, stream[pos:pos+len(b)]) {
+					c = " CORRUPT"
+				}
+				pos += len(b)
+				return fmt.Sprintf("ok %s %s", lc(b), loc(b, nil)) + c
 			case 'e':
 				env(i)
 				return "env"
@@ -295,7 +259,7 @@ func runRsd(streamTok, script, ops string) string {
 			quiet, dead = true, true
 		}
 		if quiet {
-			mcache.VerifEvents()
+			instrDrain()
 		} else {
 			res += events()
 		}
@@ -348,7 +312,7 @@ func checkRegions(regs []region) string {
 }
 
 func runWr(kind string, sinkfail int, ops string) string {
-	mcache.VerifReset()
+	instrReset()
 	sink := &sinkW{okLeft: -1}
 	if sinkfail > 0 {
 		sink.okLeft = sinkfail - 1
@@ -444,6 +408,7 @@ func runWr(kind string, sinkfail int, ops string) string {
 			}
 			return "bad-op"
 		})
+		envBetween(i)
 		res += checkRegions(regs)
 		ev := events()
 		if isBytes && ev != "" {
@@ -525,7 +490,7 @@ func overlap(p1, n1, p2, n2 uintptr) bool {
 }
 
 func decTrace(mode, script string, spanOn bool, items, ops string) string {
-	mcache.VerifReset()
+	instrReset()
 	thrift.SetSpanCache(spanOn)
 	defer thrift.SetSpanCache(false)
 	input := itemsBytes(parseItems(items))
@@ -633,6 +598,7 @@ func decTrace(mode, script string, spanOn bool, items, ops string) string {
 			}
 			return "bad-op"
 		})
+		envBetween(i)
 		for j, o := range results {
 			if !bytes.Equal(o.cur(), o.want) {
 				res += fmt.Sprintf(" VAL%d", j)
@@ -665,6 +631,7 @@ func runDec(mode, script string, span int, items, ops string) string {
 // ---------------------------------------------------------------- dispatch
 
 func runLine(f []string) (string, bool) {
+	f = append([]string{strings.TrimSuffix(f[0], "~")}, f[1:]...)
 	switch {
 	case len(f) == 5 && (f[0] == "rd" || f[0] == "sd"):
 		return runRd(f[0], f[1], f[2], f[3], f[4]), true
@@ -708,12 +675,12 @@ func emit(f ...string) {
 	default:
 		em.Count(f[0] + ":mallocs>3")
 	}
-	em.Line(res, f...)
+	em.Line(res, append([]string{f[0] + modeSuffix}, f[1:]...)...)
 }
 
 func replay(lines [][]string, part string) {
 	for _, f := range lines {
-		if len(f) == 0 || !inPart(f[0], part) {
+		if len(f) == 0 || !inPart(strings.TrimSuffix(f[0], "~"), part) {
 			continue
 		}
 		emit(f...)
